@@ -32,7 +32,7 @@ where
 }
 
 /// This trait must be implemented by the parser state type.
-pub trait State: Default + Copy {
+pub trait State: Default + Copy + PartialEq {
     /// Returns the default layout state.
     fn default_layout() -> Option<Self>;
 }
